@@ -284,6 +284,26 @@ def s3b(repo, res):
     res.require(n >= 3, f"S3b: only {n} documented relational constraints found")
 
 
+def s9(repo, res):
+    """a validator that compares an input shape against a required shape *list* element by element (zip / index loop) must also compare
+    the number of dimensions - zip() stops at the shorter one, so extra or missing axes would pass"""
+    ic = repo.mod("magpylib._src.input_checks")
+    n = 0
+    for fname, fn in ic.funcs.items():
+        zips = [c for c in ast.walk(fn) if isinstance(c, ast.Call) and getattr(c.func, "id", "") == "zip" and any(".shape" in ast.unparse(a) for a in c.args)]
+        if not zips:
+            continue
+        n += 1
+        rank = [c for c in ast.walk(fn) if isinstance(c, ast.Compare) and (".ndim" in ast.unparse(c) or "len(" in ast.unparse(c) and "shape" in ast.unparse(c))]
+        raises = any(isinstance(x, ast.Raise) for x in ast.walk(fn))
+        ok = bool(rank) and raises
+        res.ob(f"S9:{fname}", ok, {"rule": "S9", "validator": fname, "pairwise_shape_comparison": norm(zips[0]), "rank_comparisons": [norm(x) for x in rank]})
+        if not ok:
+            res.add(Finding("S9", ic.rel, fname, zips[0], "shapes are compared pairwise with zip() but the number of dimensions is never compared: inputs with "
+                            "extra or missing axes are accepted", zips[0].lineno))
+    res.require(n >= 1, "S9: no pairwise shape comparison found (anchor check_format_input_vector2 changed)")
+
+
 def s8(repo, res):
     """type gate: every input validator decides on the *type* of the value before converting it - an isinstance test, is_array_like,
     or delegation to a validator that has one.  Duck typing (`float(x)` in a try block) accepts numeric strings etc."""
@@ -675,6 +695,7 @@ def run(repo, res, tier):
     s3(repo, res)
     s3b(repo, res)
     s8(repo, res)
+    s9(repo, res)
     s4(repo, res)
     none_flow(repo, res)
     extra = {}
